@@ -19,8 +19,8 @@ from mc.engine import e2
 from mc.engine.core import Collector, Result, Violation, jstrict
 
 PLAN = {
-    "quick": [("M1", 3), ("M2", 3), ("M3", 3), ("M4", 3), ("M5", 3), ("M4b", 4)],
-    "thorough": [("M1", 4), ("M2", 4), ("M3", 3), ("M4", 4), ("M5", 4), ("M4b", 6)]  # M3 at 4 free calls exceeds 25 min on 16 cores,
+    "quick": [("M1", 3), ("M2", 3), ("M3", 3), ("M4", 3), ("M5", 3), ("M4b", 4), ("M7", 3)],
+    "thorough": [("M1", 4), ("M2", 4), ("M3", 3), ("M4", 4), ("M5", 4), ("M4b", 6), ("M7", 4)]  # M3 at 4 free calls exceeds 25 min on 16 cores,
 }
 
 
@@ -361,7 +361,7 @@ def check_model_classes():
     return fails, n
 
 
-LOADED_TOO = ("M1", "M5", "M6")  # scenarios whose programs are also exported after a save/load cycle
+LOADED_TOO = ("M1", "M5", "M6", "M7")  # scenarios whose programs are also exported after a save/load cycle
 
 
 def check_model_loaded(h):
